@@ -77,6 +77,10 @@ def lib_script(sc, fault=None):
         L += ["fopen 1 f.zck r input", "create 1", "init_read 1 1"] + ["chunkdata 1 %d" % c for c in sc["chunks"]] + ["iocounts"]
     elif k == "copy":
         L += ["fopen 2 src.zck r source", "create 2", "init_read 2 2", "fopen 1 tgt.zck rw target", "create 1", "init_read 1 1", "fv 1", "copy 2 1", "flags 1", "iocounts"]
+    elif k == "copy-retry":
+        # a caller that clears the error and copies again on the same contexts (twice): whatever ends up flagged valid must be on disk
+        L += ["fopen 2 src.zck r source", "create 2", "init_read 2 2", "fopen 1 tgt.zck rw target", "create 1", "init_read 1 1", "fv 1", "copy 2 1", "flags 1",
+              "clear_error 1", "clear_error 2", "copy 2 1", "clear_error 1", "clear_error 2", "reset_failed 1", "copy 2 1", "flags 1", "iocounts"]
     elif k == "update":
         L += ["fopen 2 src.zck r source", "create 2", "init_read 2 2", "fopen 1 tgt.zck rwc target", "create 1",
               "update 1 1 2 B.zck %d %d %s zckverifBOUNDARY" % (sc["limit"], sc["style"], sc["frag"]), "flags 1", "iocounts"]
@@ -132,7 +136,7 @@ def judge_lib(sc, r, cdir, fault):
                 if e["rc"] != len(want) or got != want:
                     return ("c12:chunkdata-success-with-wrong-bytes:" + tag, "chunk %d: rc=%d expected %d bytes" % (c, e["rc"], len(want)))
         return None
-    if k in ("copy", "update"):
+    if k in ("copy", "copy-retry", "update"):
         B = sc["_B"]
         p = zckref.parse(B)
         fl = [e["valid"] for e in r.events if e.get("op") == "flags"]
@@ -308,7 +312,7 @@ def worker(case):
                     files["in.dat"] = sc["_D"]
                     if sc.get("_dict"):
                         files["dict.bin"] = sc["_dict"]
-                elif sc["kind"] in ("copy", "update"):
+                elif sc["kind"] in ("copy", "copy-retry", "update"):
                     files["src.zck"] = sc["_A"]
                     files["B.zck"] = sc["_B"]
                     if sc.get("_T") is not None:
@@ -349,7 +353,7 @@ class C12(core.Check):
     prop = "C12"
     level = "fault_enumeration"
     flavours = ["asan", "plain"]
-    rule = ("scenarios: library write (none / zstd / zstd+dict, auto and manual chunking), read, validate-all, validate-data, find-valid, chunk data, copy_chunks, "
+    rule = ("scenarios: library write (none / zstd / zstd+dict, auto and manual chunking), read, validate-all, validate-data, find-valid, chunk data, copy_chunks (also with the caller clearing the error and copying again on the same contexts), "
             "update procedure; tools zck (plain, -m -s, -u), unzck, unzck -c, unzck --dict, unzck --header, zck_read_header -f, zckdl -s (against the loopback range server).  Per scenario the fault-free run counts calls per "
             "(descriptor class in {input, output, temp, source, target, stdout} x {read, write, lseek, ftruncate}); EVERY k-th call x every fault kind "
             "{EIO, ENOSPC, EINTR, short with real partial transfer of 0/1/3/5 bytes, read()=0} is executed (exhaustive per scenario). distinct = (scenario, fault)")
@@ -420,6 +424,7 @@ class C12(core.Check):
                 a = p.header_len + c["start"]
                 T[a:a + c["comp_len"]] = bytes(c["comp_len"])
             scs.append(dict(base, name="copy-c%s" % comp, kind="copy", A=core.b64(A), T=core.b64(bytes(T))))
+            scs.append(dict(base, name="copy-retry-c%s" % comp, kind="copy-retry", A=core.b64(A), T=core.b64(bytes(T))))
             scs.append(dict(base, name="update-c%s" % comp, kind="update", A=core.b64(A), T=None, limit=2, style=0, frag="n:16384"))
             if not q:
                 scs.append(dict(base, name="update-mp-c%s" % comp, kind="update", A=core.b64(A), T=core.b64(bytes(T[: len(T) // 2])), limit=-1, style=4, frag="rand:7:5000"))
@@ -437,7 +442,7 @@ class C12(core.Check):
                             url="http://127.0.0.1:%d/~maxr=2/c12-c%s/tgt.zck" % (ctx["port"], comp)))
           if vtag == "-dup":
               # only the scenarios in which chunks are copied / scanned / read (the tools were enumerated on the first shape)
-              scs[nbefore:] = [x for x in scs[nbefore:] if x["kind"] in ("copy", "update", "fv", "vc", "read")]
+              scs[nbefore:] = [x for x in scs[nbefore:] if x["kind"] in ("copy", "copy-retry", "update", "fv", "vc", "read")]
         scs.append({"name": "t-zck-default", "kind": "t-zck", "args": [], "D": core.b64(D)})
         scs.append({"name": "t-zck-split", "kind": "t-zck", "args": ["-m", "-s", "</text:p>"], "D": core.b64(D)})
         if not q:
@@ -525,7 +530,7 @@ class C12(core.Check):
             files["in.dat"] = sc["_D"]
             if sc.get("_dict"):
                 files["dict.bin"] = sc["_dict"]
-        elif sc["kind"] in ("copy", "update"):
+        elif sc["kind"] in ("copy", "copy-retry", "update"):
             files["src.zck"] = sc["_A"]
             files["B.zck"] = sc["_B"]
             if sc.get("_T") is not None:
